@@ -519,7 +519,7 @@ Proof.
     destruct (_ =? _).
     + eapply pres_bind; [apply pres_backend, noname_call_ok; reflexivity|intros [v e] _].
       destruct (_ && _); [fin|]. destruct (_ <? _); fin.
-    + destruct (_ =? _); [fin|]. destruct (_ <? _); fin.
+    + destruct (_ =? _); fin.
   - (* Twrite *)
     destruct (_ =? _).
     + one_call ltac:(apply noname_call_ok; reflexivity).
